@@ -507,6 +507,18 @@ def ray_body_generator(ctx, fn, lb, m, names, sym, kind):
              "enemy": ({ADD: ("ctor", SOME, (NP,)), GET: ("ctor", SOME, (piece("Black"),)), CUR: ("variant", "chess::Player::White")}, 1,
                        ("ctor", SOME, (piece("Black"),)), 1),
              "own": ({ADD: ("ctor", SOME, (NP,)), GET: ("ctor", SOME, (piece("White"),)), CUR: ("variant", "chess::Player::White")}, 0, None, 1)}
+    # the side to move may also reach the generator as a field of a context parameter (`mover.player`), or be read off the moving
+    # piece itself (`self.owner`, the generator is only called for the mover's pieces: G6)
+    side_terms = set()
+    for x_ in pushes + breaks:
+        for g_ in hir.guards_of(x_, lb, sym) or []:
+            for t_ in hir.subterms(g_[1]) if isinstance(g_[1], tuple) else ():
+                if t_[:1] == ("field",) and t_[1][:1] == ("var",) and ((t_[2] == "player") or (t_[1] == ("var", "self") and t_[2] == "owner")):
+                    side_terms.add(t_)
+    for cname in cases:
+        if CUR in cases[cname][0]:
+            for t_ in side_terms:
+                cases[cname][0][t_] = cases[cname][0][CUR]
     res = {}
     for cname, (assume, n_push, captured, n_break) in cases.items():
         fired, undec = [], []
@@ -582,6 +594,9 @@ _HELPERS = [None]
 def fold_owner(t, owner, D):
     a = {("field", ("var", "self"), "owner"): ("variant", PL + owner),
          ("field", ("var", "game"), "current_player"): ("variant", PL + owner)}
+    for x in hir.subterms(t) if isinstance(t, tuple) else ():
+        if x[:1] == ("field",) and len(x) == 3 and x[2] == "player" and x[1][:1] == ("var",):
+            a[x] = ("variant", PL + owner)        # the side to move handed over in a context value (`mover.player`)
     return hir.canon(hir.fold(t, a, D, helpers=_HELPERS[0]))
 
 
@@ -680,6 +695,11 @@ def g5(ctx, F, D):
 
         def assignment(rights, occupied, attacked):
             a = {("field", GAME, "current_player"): OWN, ("field", ("var", "self"), "owner"): OWN}
+            for p_ in ps:
+                for g_ in p_[2]:
+                    for x in hir.subterms(g_[1]) if isinstance(g_[1], tuple) else ():
+                        if x[:1] == ("field",) and len(x) == 3 and x[2] == "player" and x[1][:1] == ("var",):
+                            a[x] = OWN
             st = ("call", "chess::Game::state", (GAME,))
             for o2 in ("white", "black"):
                 for sd in ("king", "queen"):
